@@ -76,3 +76,13 @@ pub(crate) fn emit(e: Event) {
         }
     });
 }
+
+//
+// Private building blocks, re-exported so that a harness can drive them directly
+// (operation sequences generated from a specification) and observe their state.
+//
+pub use crate::bfs_queues::BfsQueue;
+pub use crate::compact_tables::{CompactTable, CompactTableBuilder};
+pub use crate::fast_sets::FastSet;
+pub use crate::labeled_queues::LabeledQueue;
+pub use crate::partitions::{BasePartition, Partition};
